@@ -50,6 +50,14 @@ CLAIMED = {
          "About 25 000 (quick) / 250 000 (thorough) generated grids; index maps both ways for all nodes, tensor weights and separable integrals, weight-sum bound, from_molecule margins, closest_point vs brute-force argmin, cube round trip in both unit conventions against the printed-precision bound, cubic/log/linear interpolation and derivatives against closed forms.",
          "Trusted: NumPy linear algebra and numpy.polynomial closed forms; itertools.product as the definition of lexicographic order; the rigorous printed-precision bound for cube files; a typed CODATA bohr/angstrom constant; the stated interpolation error model. Known findings (Fourier2, from_molecule margin) are matched by buggy-model reconstructions.",
          "DESIGN.md section 3, C13"),
+ "C15": ("Hypothesis-generated manufactured linear ODE problems of order 1-3 (analytic solution and coefficient families, right-hand side constructed from them, initial or well-posed boundary data read off the solution), each solved directly and through 20 transform variants with random parameters and six SciPy methods; the returned callable is compared with the exact y, y', y'' under a stated propagation error model tied to the requested solver tolerance; prescribed conditions re-read; transformed vs direct solve",
+         "Quick about 6 400 / thorough 120 000 generated problems per seed; non-trivial = order >= 2 through a transform or non-constant coefficients. Solver non-convergence is counted as inconclusive, never a violation.",
+         "Trusted: SciPy solve_ivp/solve_bvp meeting their tolerances; the harness's closed-form transform maps and jet derivatives (self-tested against 30-digit mpmath); error-model constants calibrated on 9 000 cases (margins 48x-500x); BVP families restricted to uniquely solvable ones so conditioning cannot fake a failure.",
+         "DESIGN.md section 3, C15"),
+ "C16": ("Hypothesis-generated atomic and two-centre molecular grids and Gaussian charge sets (centred or displaced <= 0.1 bohr): the BVP, IVP and robust Poisson solvers are compared at 200 seeded points with the closed-form erf potentials at the project's own 1e-2 per unit charge; metamorphic linearity at 1e-5; the robust solver's exact-core clause (1e-8), recombination identity and agreement with the plain solver; Laplacian of the analytic potential against -4 pi rho",
+         "Quick about 1 500 / thorough about 15 400 cases per seed across six sub-checks and all documented options (include_origin, remove_large_pts, boundary, ode tolerances, split2, alphas_basis). Expensive bodies are bounded by case count; a soft budget hit is reported as inconclusive.",
+         "Trusted: scipy.special.erf and the closed forms (self-tested against mpmath); the shipped atomic_gauss_params.json read by the harness; the stated resolution envelope (60-120 radial nodes, degree 7-21, exponents 0.3-4, IVP start on a resolved node, r >= 0.25); solver non-convergence and the NNLS iteration limit counted as inconclusive.",
+         "DESIGN.md section 3, C16"),
  "C17": ("Hypothesis over alpha in [1e-6,1e6] and r in {0, below/at/above the 1e-12 switch, log-uniform to 1e300, r ~ 1/sqrt(alpha)} for scalar/array/list input, compared with the 50-digit mpmath Coulomb integral of the documented density (incomplete gamma functions, self-tested against mp.quad and the radial Poisson equation); finite-difference Poisson residual, far-field charge, switch continuity, unnormalised factor; multi-centre routine against sum c*single-centre and mp; loader enumerated exhaustively for Z = 1..118 with all spellings",
          "About 21 700 (quick) / 318 000 (thorough) cases; loader exhaustive.",
          "Trusted: mpmath gammainc/gamma/exp at 50 digits (cross-checked by quadrature in the selftest); the docstring densities as the specification; json.load of atomic_gauss_params.json for the loader. Known finding KF-C17-ptype is matched only by its closed-form offset.",
@@ -79,7 +87,7 @@ CLAIMED = {
          "Trusted: the file names under src/grid/data name what is supported (four unreachable extra files are listed in pbt/oracles/data_loader.py); NumPy.",
          "DESIGN.md section 3, C12"),
 }
-NOT_YET = "check not built yet in this revision of /verif (work in progress; see DESIGN.md section 7)"
+NOT_YET = "not claimed in this revision of /verif"
 
 def main():
     checks, na = [], []
